@@ -29,6 +29,9 @@
 (*   InfoLineRaw   the +INFO line (= plain Gopher menu line) carries names and selectors    *)
 (*                 raw: a file or directory name containing LF continues on a new line      *)
 (*   TitleTwice    WML card title and heading are escaped twice (harmless over-escaping)    *)
+(*   GetUrlLiteralRaw  geturl() returns the rest of a `URL:...://` selector as it is and      *)
+(*                 renderdirstart / renderdirend paste it into HREF unescaped; unreachable  *)
+(*                 for real directories (a name cannot contain "/"): LiteralUnreachable     *)
 EXTENDS Naturals, Sequences, FiniteSets, TLC
 
 TX == INSTANCE Text      \* shared string helpers (named instance: immune to later additions)
@@ -106,6 +109,8 @@ SiteTab == [
   http_act_local  |-> S("dqattr", "quote"),    \* type 7: <FORM ACTION>
   http_act_host   |-> S("dqattr", HrefXf),      \* HrefRaw
   http_gopherlink |-> S("dqattr", "quote"),    \* renderdirend [view with gopher]
+  http_topper_lit     |-> S("dqattr", "raw"),  \* GetUrlLiteral branch of geturl(): the rest of the selector, pasted raw
+  http_gopherlink_lit |-> S("dqattr", "raw"),  \*   (renderdirstart / renderdirend do not escape what geturl returns)
   http_404        |-> S("text", "esc"),        \* filenotfound
   url_meta        |-> S("dqattr", "esc"),      \* handlers/url.py: META refresh
   url_href        |-> S("dqattr", "esc"),      \*                  first link
@@ -133,12 +138,43 @@ InfoLineRawSites == {"gp_info"}
 --------------------------------------------------------------------------------
 (* Combos: protocol x source -> sites reached, in page order *)
 
+\* Reserved selector shapes: the code gives `URL:` at the start of a selector a meaning, and the two places that
+\* look at it do not use the same test, so WHICH code path builds a link depends on the shape of the name.
+StripSlash(sel) == IF TX!StartsWith(sel, "/") THEN TX!Tail1(sel) ELSE sel
+\* http.py / wap.py renderobjinfo:  re.match("(/|)URL:", selector)  -> the link is the rest of the selector
+UrlBranch(sel) == TX!StartsWith(StripSlash(sel), "URL:")
+\* gopherentry.geturl:  re.search("^(/|)URL:.+://", selector)  -> the rest of the selector is returned as it is
+GetUrlLiteral(sel) ==
+    /\ UrlBranch(sel)
+    /\ LET rest == SubSeq(StripSlash(sel), 5, Len(StripSlash(sel)))
+       IN \E i \in 2..(Len(rest) - 2) : SubSeq(rest, i, i + 2) = "://"
+
+\* prefixes put in front of planted NAMES (directory and file names at the document root) and what they select
+NamePrefixes == {"", "URL:", "URL:x:"}
+HrefSiteFor(proto, sel) == IF UrlBranch(sel) THEN proto \o "_href_url" ELSE proto \o "_href_local"
+TopperSiteFor(sel) == IF GetUrlLiteral(sel) THEN "http_topper_lit" ELSE "http_topper"
+GopherlinkSiteFor(sel) == IF GetUrlLiteral(sel) THEN "http_gopherlink_lit" ELSE "http_gopherlink"
+
 C(id, proto, src, seps, norm, sites) ==
     [id |-> id, proto |-> proto, src |-> src, seps |-> seps, norm |-> norm, sites |-> sites,
-     urlfilter |-> FALSE, refused |-> <<>>, rtwin |-> ""]
+     urlfilter |-> FALSE, refused |-> <<>>, rtwin |-> "", pfx |-> ""]
 CU(id, proto, sites, refused, rtwin) ==      \* rtwin: the combo whose page a refused URL selector gets
     [id |-> id, proto |-> proto, src |-> "urlsel", seps |-> "none", norm |-> "id", sites |-> sites,
-     urlfilter |-> TRUE, refused |-> refused, rtwin |-> rtwin]
+     urlfilter |-> TRUE, refused |-> refused, rtwin |-> rtwin, pfx |-> ""]
+\* a name with a reserved prefix, planted at the document root (selector = "/" + pfx + name): the sites are derived
+\* from the branch tests above, not listed by hand
+CP(proto, src, pfx) ==
+    LET sel == "/" \o pfx \o "n"
+        sites == CASE proto = "http" /\ src = "dirname" ->
+                        <<"http_title", TopperSiteFor(sel), "http_h1", HrefSiteFor("http", sel), GopherlinkSiteFor(sel)>>
+                   [] proto = "http" /\ src = "filename" -> <<HrefSiteFor("http", sel), "http_name">>
+                   [] proto = "wap" /\ src = "dirname" -> <<"wap_title", "wap_b", HrefSiteFor("wap", sel)>>
+                   [] proto = "wap" /\ src = "filename" -> <<HrefSiteFor("wap", sel), "wap_name">>
+                   [] OTHER -> <<"gp_info", "gp_info">>
+    IN [id |-> proto \o "/" \o src \o "@" \o pfx, proto |-> proto, src |-> src, seps |-> "none", norm |-> "id",
+        sites |-> sites, urlfilter |-> FALSE, refused |-> <<>>, rtwin |-> "", pfx |-> pfx]
+PrefixCombos == {CP(pr, sr, px) : pr \in {"http", "wap", "gplus"}, sr \in {"dirname", "filename"},
+                                  px \in NamePrefixes \ {""}}
 
 HttpCombos == {
   C("http/sel404", "http", "sel404", "none", "id", <<"http_404">>),
@@ -196,7 +232,7 @@ GplusCombos == {
   C("gplus/gmaphost", "gplus", "gmaphost", "lf", "id", <<"gp_info">>),
   C("gplus/linkname", "gplus", "linkname", "crlf", "id", <<"gp_info">>) }
 
-AllCombos == HttpCombos \cup WapCombos \cup GplusCombos
+AllCombos == HttpCombos \cup WapCombos \cup GplusCombos \cup PrefixCombos
 ComboOf(id) == CHOOSE c \in AllCombos : c.id = id
 
 --------------------------------------------------------------------------------
